@@ -25,11 +25,13 @@ static char tp_case[1024] = "";   /* description of the running case, for report
 __attribute__((constructor)) static void tp_case_init_(void) { vf_cur_case = tp_case; }
 static long long tp_calls = 0;    /* monitored library calls */
 
+#ifndef TP_VIOL
 #define TP_VIOL(mon, what)   do { \
 		char tp_k_[128]; \
 		snprintf(tp_k_, sizeof tp_k_, "%s:%s", tp_prop, (mon)); \
 		vf_viol(tp_k_, (what), "%s", tp_case); \
 	} while (0)
+#endif
 
 /* ------------------------------------------------------------------ */
 /* suites */
